@@ -39,15 +39,10 @@ func (w *Waiter) Wait(ctx context.Context) (ok bool) {
 		w.overdueDuration = 0
 		return false
 	}
-	// Get current time lazily.
-	// For once schedule, for example, we need to get it only once.
-	waitFor := next.Sub(w.lastNow)
-	if waitFor <= 0 {
-		w.overdueDuration = 0 - waitFor
-		return true
-	}
+	// Refresh time even if token is already late by the last known time:
+	// last known time can be stale, so real overdue can be much bigger.
 	w.lastNow = time.Now()
-	waitFor = next.Sub(w.lastNow)
+	waitFor := next.Sub(w.lastNow)
 	if waitFor <= 0 {
 		w.overdueDuration = 0 - waitFor
 		return true
